@@ -151,8 +151,8 @@ Print Assumptions C18_encode_phase_sample.
 
 (* non-vacuity: the executed model on a concrete waveform (|3+4i|/8 = 5/8, duration 1 over two samples, rf 1/2, phi 30) *)
 Example C18_nonvacuous :
-  rfpulse QcNum [(qq 5 8, qq 53 1); (qq 1 2, qq 0 1)] (@DScalar QcNum (qq 1 1)) (Some (qq 1 2)) None (Some (qq 30 1))
-          (Some (qq 1000 1)) None None (qq 1 1)
-  = Some [@PPhi QcNum (qq (-30) 1); @PT QcNum (qq 225 4) (qq 53 1) (qq 1 2); @PE QcNum (qq 1 2) (qq 1000 1) (qq 10000000000 1) (qq 0 1);
-          @PT QcNum (qq 45 1) (qq 0 1) (qq 1 2); @PE QcNum (qq 1 2) (qq 1000 1) (qq 10000000000 1) (qq 0 1); @PPhi QcNum (qq 30 1)].
+  ops_close QcNum (qq 0 1) (rfpulse QcNum [(qq 5 8, qq 53 1); (qq 1 2, qq 0 1)] (@DScalar QcNum (qq 1 1)) (Some (qq 1 2)) None (Some (qq 30 1))
+          (Some (qq 1000 1)) None None (qq 1 1))
+  (Some [@PPhi QcNum (qq (-30) 1); @PT QcNum (qq 225 4) (qq 53 1) (qq 1 2); @PE QcNum (qq 1 2) (qq 1000 1) (qq 10000000000 1) (qq 0 1);
+          @PT QcNum (qq 45 1) (qq 0 1) (qq 1 2); @PE QcNum (qq 1 2) (qq 1000 1) (qq 10000000000 1) (qq 0 1); @PPhi QcNum (qq 30 1)]) = true.
 Proof. vm_compute. reflexivity. Qed.
